@@ -317,6 +317,84 @@ def gen_haarseg(rng, k):
     return out
 
 
+# ---- extension (round 4): the weighted path on noise-free steps, window-edge indices, the initial HMM ----------
+
+
+def _pos_weights(rng, n, kind=None):
+    """strictly positive weights: the property's range [0.5, 1] (float / dyadic / all ones) and, because the theorems
+    hold for ANY positive weights, wide and spiky ones"""
+    kind = kind or rng.choice(["uniform", "uniform", "dyadic", "ones", "wide", "spiky"])
+    if kind == "uniform":
+        return [rng.uniform(0.5, 1.0) for _ in range(n)], kind
+    if kind == "dyadic":
+        return [rng.randint(4, 8) / 8 for _ in range(n)], kind
+    if kind == "ones":
+        return [1.0] * n, kind
+    if kind == "wide":
+        return [rng.uniform(0.05, 4.0) for _ in range(n)], kind
+    return [rng.choice([1.0, 1.0, 1.0, 0.01, 50.0]) for _ in range(n)], kind
+
+
+def _step_levels(rng, min_abs=0.0):
+    if rng.random() < 0.6:
+        step = rng.choice([-1.0, 0.585, 1.0])
+        return (0.0, step) if rng.random() < 0.5 else (step, 0.0)
+    lo = _dy(rng, -2, 2, 3)
+    d = rng.choice([-1, 1]) * rng.randint(1, 24) / 8
+    while abs(d) < min_abs:
+        d = rng.choice([-1, 1]) * rng.randint(1, 24) / 8
+    return lo, lo + d
+
+
+def gen_conv_w_step(rng, k):
+    """HaarConv(step, W, h) on noise-free steps with positive weights: mostly inside the hypotheses of
+    `haarConvW_ideal_step` (h <= b, b + h <= n), one case in six outside (excluded point: the closed form is not
+    claimed there; model and real code must still agree)"""
+    out = []
+    for _ in range(k):
+        h = rng.choice([1, 2, 2, 4, 4, 8, 8, 16, 32, 3, 5])
+        if rng.random() < 0.84:
+            b = h + rng.choice([0, 0, 1, rng.randint(0, 40)])
+            n = b + h + rng.choice([0, 0, 1, rng.randint(0, 40)])
+            if n < b + 2:
+                n = b + 2
+            tag = "convw-step"
+        else:
+            n = rng.randint(max(2, h), 70)
+            b = rng.randint(1, n - 1)
+            tag = "convw-step" if (h <= b and b + h <= n) else "convw-step-outside"
+        lo, hi = _step_levels(rng)
+        w, kind = _pos_weights(rng, n)
+        out.append({"op": "haar_conv_w_step", "tag": f"{tag}:{kind}", "in": {"b": b, "n": n, "h": h, "lo": lo, "hi": hi, "w": w}})
+    return out
+
+
+def gen_haarseg_w(rng, k):
+    """haarSeg(step, q, W) as one_chrom calls it, on noise-free steps of at least the property's smallest height with
+    >= 32 bins a side (hypotheses of `haarSegW_ideal_step`); smaller steps are not generated: in floats the weighted
+    quotients leave rounding-noise peaks and FDRThres then keeps a level's largest peak only if its normalised
+    response reaches 1 (observation Z)"""
+    out = []
+    for _ in range(k):
+        b = rng.randint(32, 110)
+        n = b + rng.randint(32, 110)
+        lo, hi = _step_levels(rng, min_abs=0.585)
+        w, kind = _pos_weights(rng, n, rng.choice(["uniform", "uniform", "dyadic", "ones", "wide"]))
+        out.append({"op": "haar_seg_w", "tag": f"haarsegw-ideal:{kind}",
+                    "in": {"b": b, "n": n, "lo": lo, "hi": hi, "w": w, "q": rng.choice([0.0001, 0.0001, 0.001, 0.05])}})
+    return out
+
+
+def gen_idx(rng, k):
+    out = []
+    for _ in range(k):
+        n = rng.choice([1, 2, 3, 5, 8, rng.randint(2, 90)])
+        h = rng.choice([1, 2, 3, 4, 5, 8, 16, 32, n, max(1, n - 1), n + 1])
+        out.append({"op": "haar_idx", "tag": "idx" + ("-weighted" if rng.random() < 0.5 else "") + (":h>n" if h > n else ""),
+                    "in": {"n": n, "h": h}})
+    return out
+
+
 def _r6(v):
     """a value the 6-significant-digit table files carry exactly"""
     return float("%.6g" % v)
@@ -486,11 +564,16 @@ def gen_oracle(rng, k):
 
 def gen_cases(rng, tier):
     sizes = {
-        "quick": dict(fl=300, conv=500, peaks=600, fdr=400, unify=1200, segs=400, hs=300, oracle=450),
-        "thorough": dict(fl=3000, conv=4000, peaks=5000, fdr=3000, unify=6000, segs=3000, hs=2500, oracle=4000),
-        "search": dict(fl=100, conv=300, peaks=300, fdr=200, unify=300, segs=200, hs=300, oracle=300),
+        "quick": dict(fl=300, conv=500, peaks=600, fdr=400, unify=1200, segs=400, hs=300, oracle=450, cw=160, hsw=120, idx=60),
+        "thorough": dict(fl=3000, conv=4000, peaks=5000, fdr=3000, unify=6000, segs=3000, hs=2500, oracle=4000, cw=1200, hsw=900, idx=400),
+        "search": dict(fl=100, conv=300, peaks=300, fdr=200, unify=300, segs=200, hs=300, oracle=300, cw=150, hsw=100, idx=40),
     }[tier]
-    cases = [{"op": "consts", "tag": "consts", "in": {}}]
+    cases = [{"op": "consts", "tag": "consts", "in": {}}, {"op": "hmm_init", "tag": "hmm-init", "in": {}}]
+    # the extension draws from its own generator (seeded from the run's), so that the cases of the earlier ops
+    # keep their numbering
+    import random as _random
+    xr = _random.Random(rng.getrandbits(64))
+    ext = gen_conv_w_step(xr, sizes["cw"]) + gen_haarseg_w(xr, sizes["hsw"]) + gen_idx(xr, sizes["idx"])
     cases += gen_fl64(rng, sizes["fl"])
     cases += gen_conv(rng, sizes["conv"])
     cases += gen_peaks(rng, sizes["peaks"])
@@ -501,7 +584,7 @@ def gen_cases(rng, tier):
     cases += gen_segs(rng, sizes["segs"])
     cases += gen_haarseg(rng, sizes["hs"])
     cases += gen_oracle(rng, sizes["oracle"])
-    return cases
+    return cases + ext
 
 
 def corpus():
@@ -525,6 +608,16 @@ def corpus():
     out.append({"op": "haar_seg", "tag": "corpus-Y-flat-weighted", "in": {
         "I": [0.585] * 14, "q": 0.0001, "exact": False, "flat_unclaimed": True,
         "w": [0.75, 1.0, 0.5, 0.625, 0.875, 1.0, 0.5, 0.75, 0.625, 1.0, 0.875, 0.5, 0.75, 1.0]}})
+    # boundary of the weighted ideal-step theorems: h = b = n - b; the lightest and the heaviest bin next to the step
+    for h in (1, 2, 32):
+        out.append({"op": "haar_conv_w_step", "tag": "corpus-convw-boundary", "in": {
+            "b": h, "n": 2 * h if h > 1 else 3, "h": h, "lo": 0.0, "hi": 0.585, "w": ([1.0, 0.5] * h)[: (2 * h if h > 1 else 3)] if h > 1 else [1.0, 0.5, 1.0]}})
+    out.append({"op": "haar_conv_w_step", "tag": "corpus-convw-spiky", "in": {
+        "b": 8, "n": 16, "h": 4, "lo": 0.0, "hi": -1.0, "w": [1.0] * 7 + [0.01, 50.0] + [1.0] * 7}})
+    out.append({"op": "haar_seg_w", "tag": "corpus-haarsegw-32", "in": {
+        "b": 32, "n": 64, "lo": 0.0, "hi": 0.585, "w": [0.5 + (i % 5) / 8 for i in range(64)], "q": 0.0001}})
+    out.append({"op": "haar_idx", "tag": "corpus-idx", "in": {"n": 10, "h": 4}})
+    out.append({"op": "haar_idx", "tag": "corpus-idx-weighted", "in": {"n": 9, "h": 9}})
     # boundary of the quantifier for the oracle: 100 bins a side, sd 0.1, smallest claimed step
     import random
     r = random.Random(11)
@@ -812,7 +905,92 @@ def run_impl(case):
         return res
     if op == "consts":
         return _observe_consts()
+    if op == "haar_conv_w_step":
+        sig = np.array([i["lo"]] * i["b"] + [i["hi"]] * (i["n"] - i["b"]), dtype=float)
+        return _fl(haar.HaarConv(sig, np.array(i["w"], dtype=float), i["h"]))
+    if op == "haar_seg_w":
+        I = np.array([i["lo"]] * i["b"] + [i["hi"]] * (i["n"] - i["b"]), dtype=float)
+        res = haar.haarSeg(I, i["q"], W=np.array(i["w"], dtype=float))
+        return {"table": {"start": [int(v) for v in res["start"]], "end": [int(v) for v in res["end"]],
+                          "size": [int(v) for v in res["size"]], "mean": _fl(res["mean"])}}
+    if op == "haar_idx":
+        return _observe_indices(i["n"], i["h"], "weighted" in case["tag"])
+    if op == "hmm_init":
+        return _observe_hmm_init()
     raise ValueError(op)
+
+
+class _Rec:
+    """a sequence that records which elements are read"""
+
+    def __init__(self, n, value):
+        self.n, self.value, self.log = n, value, []
+
+    def __len__(self):
+        return self.n
+
+    def __getitem__(self, i):
+        import numpy as np
+        if isinstance(i, slice):
+            return np.full(len(range(*i.indices(self.n))), self.value)
+        self.log.append(int(i))
+        return self.value
+
+
+def _observe_indices(n, h, weighted):
+    """the elements the real HaarConv loop reads at every k: rows [highEnd, lowEnd, k - 1]"""
+    from cnvlib.segmentation import haar
+    sig = _Rec(n, 0.0)
+    if not weighted:
+        haar.HaarConv(sig, None, h)
+        if len(sig.log) % 3:
+            raise AssertionError("harness: unweighted HaarConv no longer reads three elements per position")
+        return [sig.log[j:j + 3] for j in range(0, len(sig.log), 3)]
+    wt = _Rec(n, 1.0)
+    haar.HaarConv(sig, wt, h)
+    if len(sig.log) % 4 or len(wt.log) != 2 * len(sig.log):
+        raise AssertionError("harness: weighted HaarConv no longer reads 4 signal / 8 weight elements per position")
+    rows = []
+    for j in range(0, len(sig.log), 4):
+        lo, k1, hi, k1b = sig.log[j:j + 4]
+        wl = wt.log[2 * j:2 * j + 8]
+        if k1 != k1b or wl != [lo, k1, hi, k1, k1, lo, hi, k1]:
+            raise AssertionError(f"harness: weighted HaarConv reads signal {sig.log[j:j + 4]} / weight {wl}: not one (lowEnd, k-1, highEnd) triple")
+        rows.append([hi, lo, k1])
+    return rows
+
+
+def _observe_hmm_init():
+    """what hmm_get_model(..., 'hmm-germline') really hands to pomegranate's from_matrix"""
+    import random
+    import numpy as np
+    from cnvlib.segmentation import hmm
+    seen = {}
+    real = hmm.pom
+
+    class _HMM:
+        @staticmethod
+        def from_matrix(*a, **k):
+            seen["args"] = a
+            seen["kw"] = sorted(k)
+            return real.HiddenMarkovModel.from_matrix(*a, **k)
+
+    class _Pom:
+        HiddenMarkovModel = _HMM
+
+        def __getattr__(self, name):
+            return getattr(real, name)
+
+    r = random.Random(7)
+    chroms = [{"name": "chr1", "bins": [[1000 * k, 500, (0.0 if k < 120 else -1.0) + r.gauss(0, 0.05), 1.0] for k in range(240)]}]
+    hmm.pom = _Pom()
+    try:
+        hmm.hmm_get_model(_cna(chroms), "hmm-germline", None, 1)
+    finally:
+        hmm.pom = real
+    trans, dists, start = seen["args"][:3]
+    return {"start": _fl(np.asarray(start, dtype=float)), "trans": [_fl(row) for row in np.asarray(trans, dtype=float)],
+            "n_dists": len(dists), "kw": seen["kw"]}
 
 
 def _observe_consts():
@@ -936,6 +1114,20 @@ def to_line(case, impl):
                 "impl": None if err else [u["segs"] for u in units]}
     if op == "consts":
         return {"op": op, "in": {}, "impl": None if err else impl}
+    if op == "haar_conv_w_step":
+        inp = {"b": i["b"], "n": i["n"], "h": i["h"], "lo": frac(i["lo"]), "hi": frac(i["hi"]), "w": _q(i["w"]),
+               "fac": frac(math.sqrt(i["h"] / 2))}
+        bad = err or any(v == NAN for v in impl)
+        return {"op": op, "in": inp, "impl": None if err else (NAN if bad else impl)}
+    if op == "haar_seg_w":
+        I = [i["lo"]] * i["b"] + [i["hi"]] * (i["n"] - i["b"])
+        inp = {"I": _q(I), "w": _q(i["w"]), "q": frac(i["q"]), "facs": [frac(math.sqrt(2 ** lv / 2)) for lv in LEVELS],
+               "ideal": {"b": i["b"], "lo": frac(i["lo"]), "hi": frac(i["hi"])}}
+        return {"op": op, "in": inp, "impl": None if err else impl["table"]}
+    if op == "haar_idx":
+        return {"op": op, "in": i, "impl": None if err else impl}
+    if op == "hmm_init":
+        return {"op": op, "in": {}, "impl": None if err else {"start": impl["start"], "trans": impl["trans"]}}
     raise ValueError(op)
 
 
@@ -1022,6 +1214,43 @@ def judge(case, impl, resp):
             dis.append(f"fitted germline means {impl['germline_means']} generated {out['germline_means']}")
         if out["germline_frozen"] != [True, True, True]:
             spec.append("germline_means_frozen")
+    elif op == "haar_conv_w_step":
+        inside = i["h"] <= i["b"] and i["b"] + i["h"] <= i["n"]
+        if out is None or any(v == NAN for v in impl):
+            dis.append("weighted HaarConv on positive weights: zero weight sum in the model or non-finite real output")
+        else:
+            if not _same_list(impl, out, False):
+                k = next((k for k, (x, y) in enumerate(zip(impl, out)) if not _same(x, y, False)), -1)
+                dis.append(f"weighted HaarConv differs from the model at {k}")
+            if inside and [Fraction(x) for x in out] != [Fraction(x) for x in resp["closed"]]:
+                dis.append("model haarConvW is not the closed form stepRespW (theorem haarConvW_ideal_step)")
+    elif op == "haar_seg_w":
+        t = impl["table"]
+        if t["start"] != out["start"] or t["end"] != out["end"] or t["size"] != out["size"]:
+            dis.append(f"weighted haarSeg breakpoints model {out['start']} impl {t['start']}")
+        elif not _same_list(t["mean"], out["mean"], False):
+            dis.append("weighted haarSeg means differ")
+    elif op == "haar_idx":
+        if i["h"] > i["n"]:
+            if impl != []:
+                dis.append("HaarConv with stepHalfSize > signalSize entered its loop")
+        else:
+            if out != resp["src"]:
+                dis.append("model indices differ from the generated source expressions")
+            if impl != out:
+                k = next((k for k, (x, y) in enumerate(zip(impl, out)) if x != y), -1)
+                dis.append(f"HaarConv reads elements {impl[k] if 0 <= k < len(impl) else len(impl)} at k={k + 1}, model {out[k] if 0 <= k < len(out) else len(out)}")
+    elif op == "hmm_init":
+        tol = Fraction(1, 10 ** 12)
+        def close(a, b):
+            return abs(Fraction(a) - Fraction(b)) <= tol * max(1, abs(Fraction(b)))
+        if len(impl["start"]) != len(out["start"]) or not all(close(a, b) for a, b in zip(impl["start"], out["start"])):
+            dis.append(f"start probabilities handed to from_matrix {impl['start']} generated {out['start']}")
+        if len(impl["trans"]) != len(out["trans"]) or not all(
+                len(ra) == len(rb) and all(close(a, b) for a, b in zip(ra, rb)) for ra, rb in zip(impl["trans"], out["trans"])):
+            dis.append("transition matrix handed to from_matrix differs from the generated one")
+        if impl["n_dists"] != len(out["start"]):
+            dis.append("number of distributions differs from the number of states")
     return spec, dis, None
 
 
@@ -1041,6 +1270,10 @@ def nontrivial(case, impl, resp):
         return bool(i["peaks"])
     if op == "haar_seg":
         return len(impl["table"]["start"]) > 1 or "ideal" in i or "flat" in i
+    if op == "haar_conv_w_step":
+        return i["h"] <= i["b"] and i["b"] + i["h"] <= i["n"]
+    if op == "haar_idx":
+        return i["h"] <= i["n"] and i["n"] >= 2
     return True
 
 
